@@ -405,6 +405,9 @@ func effectAMD64(in *Instr) (*Effect, error) {
 		}
 		if a[0].Kind == OMem {
 			e.Reads = append(e.Reads, a[0].Reg)
+			if a[0].Index != "" {
+				e.Reads = append(e.Reads, a[0].Index)
+			}
 		} else if a[0].Kind != OSym {
 			return bad()
 		}
